@@ -126,6 +126,9 @@ func drawRound(r *sim.Rng, se *Session, g *sim.Gen, tier string) *sim.ParRound {
 			if r.Chance(0.1) {
 				sc = append(sc, sim.ParStep{K: "gc"})
 			}
+			if r.Chance(0.12) {
+				sc = append(sc, sim.ParStep{K: "deadquery"})
+			}
 			if !writeRound && nG >= 8 && r.Chance(0.25) {
 				// further queries of the same filter that stay open until the script ends: with
 				// many goroutines the limit of 64 open queries is reached; an attempt beyond it
